@@ -177,6 +177,11 @@ func observe(red map[string]interface{}) (observed, error) {
 
 // compareWithModel checks one redacted JSON against the key sets of the specification and the original values.
 func compareWithModel(r *rec, api string, orig, red map[string]interface{}) *hx.Result {
+	if r.Fam == "probe" && len(r.KTop) == 0 {
+		// a failure while recording, re-executed: there is no expectation to compare with (every expectation has
+		// `type` and `content`); errors, panics and values of earlier calls are what such a probe looks for
+		return nil
+	}
 	tc := typeClass(r.Type)
 	obs, err := observe(red)
 	if err != nil {
